@@ -320,7 +320,7 @@ func (dc *delimCtx) escapes(ci *consumerInfo, fn *ssa.Function, start *ssa.Basic
 // callers close it.
 func (dc *delimCtx) blocks(end int64) {
 	m := dc.m
-	pbs := m.Method("parser", "Parser", "parseBlockStmt")
+	pbs := m.blockParser()
 	if pbs == nil {
 		dc.s.Undecided(dc.rule, "parseBlockStmt", "-", "parseBlockStmt not found")
 		return
